@@ -6,13 +6,15 @@ PROPERTY_MODULES = {
     "C08": ["combinators", "pjax_vmap"],
     "C14": ["seed", "pjax_vmap", "state"],
     "C19": ["state"],
+    "C18": ["mcmc", "state"],
+    "C09": ["mcmc", "core_gfi", "combinators", "choicemap"],
     "C06": ["seed"],
     "C07": ["seed"],
     "C01": ["core_gfi", "combinators", "lemmas", "choicemap"],
     "C02": ["core_gfi", "combinators", "lemmas", "pjax_vmap"],
     "C03": ["core_gfi", "combinators", "lemmas", "choicemap"],
     "C04": ["core_gfi", "combinators", "selection"],
-    "C05": ["core_gfi", "combinators", "lemmas"],
+    "C05": ["core_gfi", "combinators", "lemmas", "mcmc"],
 }
 
 A_REAL = "A-REAL: machine floats are treated as mathematical reals and ints as mathematical ints (no rounding, overflow, nan/inf)"
